@@ -161,6 +161,17 @@ CLAIMS = {
              "files that are not well-formed.",
         note=TRUST + "Card-length lemma: strlen(key)+1+strlen(value)+1 <= 82 for any card cfitsio returns.",
         technique="allocation-site enumeration vs size-model terms (affine capacity matching), release-before-allocate dataflow, current-HDU typestate"),
+    "C01": dict(
+        text="Does NOT decide the numerical identity (value = sum of coefficient x product of Cox-de Boor basis functions). Decides structural "
+             "prerequisites that are each necessary for it: in all 6 kernel instantiations the margin re-indexing loops are bounded first and "
+             "entered from the boundary centres, and both margin shifts are reachable for every admitted knot-vector length - including the "
+             "shortest, nknots = 2*order+2, where the two boundary centres coincide (on the original tree the right-margin shift sat in the "
+             "else-branch of the left one: right-margin values of minimal tables were wrong, defect D35); every kernel writes slot 0 of its "
+             "outputs on every path; the centre brackets the point with the statement's clamp/last-interval conventions; every entry point "
+             "passes one dimension's knots/count/coordinate/centre/order to the kernel; all 108 optimised cores reduce to the generic core and "
+             "the dispatch table selects the core its labels require.",
+        note=TRUST + "The de Boor recurrence in bsplvb/bsplvb_simple is taken as correct (numerical).",
+        technique="guard-shape, dominance and reachability rules on the instantiated kernels; clone detection; dispatch-table agreement"),
     "C09": dict(
         text="Decides ONE structural clause: the wiring of the penalised least-squares system. In fit: the penalty starts as the zero matrix of "
              "side prod(nknots[i]-order[i]-1) and receives, for every dimension i, add_penalty_term with that dimension's knots, order, penalty "
@@ -186,7 +197,6 @@ CLAIMS = {
 }
 
 NOT_APPLICABLE = {
-    "C01": "numerical identity between a floating-point result and a mathematical sum over runtime knots/coefficients; no structural clause beyond those decided under C02/C04/C05",
 }
 
 # properties whose check is designed (DESIGN.md §4) but not yet built in this tree
